@@ -102,4 +102,32 @@ def C16(s, known):
                             "acyclic. Every enumerated user dictionary is loaded by the real binary and every user name/display played; built-ins by name and display")
 
 
-PLANS = {"C16": C16, "C01": C01, "C02": C02, "C06": C06, "C07": C07, "C08": C08, "C17": C17, "C15": C15, "C14": C14, "C13": C13, "C03": C03}
+def grammar_models(s, L, N, K):
+    import os, subprocess, vcheck
+    prods = os.path.join(s.scratch, "productions.json")
+    rc = subprocess.run(["python3", os.path.join(vcheck.VERIF, "tools", "yacc2json.py"),
+                         os.path.join(vcheck.REPO, "input/ast/chords.y"), prods])
+    if rc.returncode != 0:
+        raise vcheck.Undecided("cannot extract the productions from chords.y")
+    g = s.model("Grammar", cfg="GrammarMC.cfg", workers=1, files=[(prods, "productions.json")], constants={"L": L}, collect=["sentences.ndjson"])
+    sents = g["collected"]["sentences.ndjson"]
+    s.model("ChordLangMC", workers=8, files=[(sents, "sentences.ndjson")], constants={"N": N, "L": L})
+    s.model("LexerMC", workers=8, constants={"K": K})
+    return sents
+
+
+def C04(s, known):
+    s.build()
+    quick = s.tier == "quick"
+    sents = grammar_models(s, 9 if quick else 12, 4 if quick else 5, 3 if quick else 4)
+    m = s.drive("c04", args=["-aux", sents])
+    s.validate(m, "C04Trace", known=known, shard=max(50, len_records(m) // 12 + 1))
+    return dict(level="model_checking",
+                explanation="Grammar.tla derives every sentence <= L tokens from the productions extracted from the working tree's chords.y "
+                            "(unambiguity checked); ChordLangMC: hand-written recogniser = grammar on all token strings <= N and all single-token "
+                            "mutations of sentences; LexerMC: progress, termination, nothing dropped, mode discipline for all inputs <= K runes. "
+                            "Binding: sentences rendered with trivia, their prefixes and mutations, and ALL strings over 20 runes up to the bound, "
+                            "each through the real `crd text parse`: accepted iff Lexer o ChordLang accept, tree equal")
+
+
+PLANS = {"C04": C04, "C16": C16, "C01": C01, "C02": C02, "C06": C06, "C07": C07, "C08": C08, "C17": C17, "C15": C15, "C14": C14, "C13": C13, "C03": C03}
